@@ -97,12 +97,12 @@ theorem forged_rejected_original_false :
 theorem forged_rejected (w : World) (input : JVal) (source : Option U) (o : O) (id : U)
     (h : fetchUnknown w input source = .ok (o, some id)) :
     (∃ o0 id0 src, (input = .obj o0 ∨ ∃ ref u src0, input = .str ref ∧ w.parse ref = some u ∧
-          w.fetch (w.resolve source u).str = some (o0, src0)) ∧
+          w.fetch (w.target source u).str = some (o0, src0)) ∧
         getId w o0 = .ok (some id0) ∧ w.fetch id0.str = some (o, src) ∧
         src.host = id.host ∧ getId w o = .ok (some id)) ∨
     (∃ s, source = some s ∧ s.host = id.host ∧ input = .obj o) ∨
     (∃ ref src, input = .str ref ∧ src.host = id.host ∧ ∃ u, w.parse ref = some u ∧
-        w.fetch (w.resolve source u).str = some (o, src)) :=
+        w.fetch (w.target source u).str = some (o, src)) :=
   C02aux.fetchUnknown_inv h
 
 /-- Sub-values of a served object are served by the same host (what the constructors rely on when
